@@ -148,6 +148,16 @@ func (w *world) mutate(m *model.Ledger, t model.Txn, k int) model.Txn {
 		}
 		resign = true
 	case mutHourOverflow:
+		if tp.Chance("mut-hovf-near-max", 1, 2) && x.Out[0].Coins > 1 {
+			// one output just below 2^64 hours (it earns past 2^64 as soon as time passes), the other chosen so
+			// that the 64-bit sum of the output hours wraps to a small number
+			a := tp.Draw("mut-hovf-a", 1000)
+			x.Out[0].Hours = ^uint64(0) - a
+			x.Out = append(x.Out, model.Out{Addr: w.clients[0].m, Coins: 1, Hours: a + 1 + tp.Draw("mut-hovf-k", 3)})
+			x.Out[0].Coins--
+			resign = true
+			break
+		}
 		x.Out[0].Hours = 1 << 63
 		x.Out = append(x.Out, model.Out{Addr: w.clients[0].m, Coins: 0, Hours: 1 << 63})
 		// keep coins conserved: move one unit from output 0 if possible
